@@ -135,6 +135,10 @@ func (x *Exec) invoke(st *State, fr *Frame, in ssa.Instruction, cc *ssa.CallComm
 		m(x, st, fr, in, cc, recv, args, k)
 		return
 	}
+	if c := x.ifaceContract(cc); c != nil {
+		x.applyIfaceContract(st, fr, in, cc, c, name, recv, args, k)
+		return
+	}
 	x.trusted["interface method "+name+": results unconstrained, no effect on tracked memory"] = true
 	sig := cc.Signature()
 	res := x.havocResults(st, "r_"+sanitize(cc.Method.Name()), sig)
@@ -163,7 +167,7 @@ func (x *Exec) callStatic(st *State, fr *Frame, in ssa.Instruction, fn *ssa.Func
 		return
 	}
 	c := x.contractFor(fn)
-	if c != nil && !c.Inline && fr != nil {
+	if c != nil && !c.Inline && fr != nil && x.pureEval == 0 {
 		x.assertBeforeCall(st, fr, in, fn, args)
 		x.applyContract(st, fr, in, fn, c, args, k)
 		return
@@ -632,4 +636,101 @@ func (x *Exec) copyOp(st *State, fr *Frame, in ssa.Instruction, cc *ssa.CallComm
 	// when n == 0 nothing is written (also covers nil destination)
 	x.setArr(st, name, srt, ite(eq(n, "0"), arr, app("store", arr, app("s_arr", d), na)))
 	return Term{n, types.Typ[types.Int]}
+}
+
+// ifaceContract finds an assumed contract `func (IfaceName) Method` for a dynamically dispatched call.
+func (x *Exec) ifaceContract(cc *ssa.CallCommon) *FuncContract {
+	n, ok := cc.Value.Type().(*types.Named)
+	if !ok {
+		return nil
+	}
+	key := "(" + n.Obj().Name() + ")." + cc.Method.Name()
+	for _, pc := range x.contracts {
+		if c, ok := pc.Funcs[key]; ok {
+			return c
+		}
+	}
+	return nil
+}
+
+// applyIfaceContract: the contract of an interface method is assumed (trusted): requires are
+// checked at the call, ensures are assumed about unconstrained results. Parameters are named as
+// in the interface declaration (recv is `self`).
+func (x *Exec) applyIfaceContract(st *State, fr *Frame, in ssa.Instruction, cc *ssa.CallCommon, c *FuncContract, name string, recv Val, args []Val, k callCont) {
+	x.trusted["assumed contract of interface method "+name+" (see contract file)"] = true
+	sig := cc.Signature()
+	pre := st.clone()
+	mk := func(cur, old *State) *SpecEnv {
+		env := x.newEnv(cur, old, nil)
+		env.fn = fr.fn
+		env.entryAlloc = pre.allocCtr
+		env.vars["self"] = recv
+		for i := 0; i < sig.Params().Len() && i < len(args); i++ {
+			if pn := sig.Params().At(i).Name(); pn != "" && pn != "_" {
+				env.vars[pn] = args[i]
+			}
+			env.vars[fmt.Sprintf("a%d", i)] = args[i]
+		}
+		return env
+	}
+	for _, cl := range c.Clauses {
+		if cl.Kind == "requires" && clauseActive(cl, x.active) {
+			g := mk(st, nil).evalBool(cl.E)
+			x.oblige(st, fr, "requires@call:"+name, clauseTag(cl), in, cl.Line, g, "precondition of "+name+": "+cl.Src)
+			x.assume(st, g)
+		}
+	}
+	// allocation may happen inside; nothing pre-existing is modified unless a modifies clause says so
+	var mods []string
+	for _, cl := range c.Clauses {
+		if cl.Kind == "modifies" {
+			for _, e := range cl.Es {
+				mods = append(mods, mk(st, nil).evalRef(e))
+			}
+		}
+	}
+	oldAlloc := st.allocCtr
+	na := x.declare(st, "alloc", "Int")
+	x.assume(st, app(">=", na, oldAlloc))
+	st.allocCtr = na
+	if len(mods) > 0 {
+		for _, n := range sortedKeys(keysOf(st.heap)) {
+			x.havocArray(st, n, oldAlloc, mods)
+		}
+	}
+	var res []Val
+	for i := 0; i < sig.Results().Len(); i++ {
+		res = append(res, x.havocVal(st, "r_"+sanitize(cc.Method.Name()), sig.Results().At(i).Type()))
+	}
+	env := mk(st, pre)
+	for i, r := range res {
+		env.vars[fmt.Sprintf("result%d", i)] = r
+		if n := sig.Results().At(i).Name(); n != "" && n != "_" {
+			env.vars[n] = r
+		}
+		if i == len(res)-1 && isErrorType(sig.Results().At(i).Type()) {
+			env.vars["err"] = r
+		}
+	}
+	if len(res) > 0 {
+		env.vars["result"] = res[0]
+	}
+	for _, cl := range c.Clauses {
+		if cl.Kind == "ensures" && clauseActive(cl, x.active) {
+			if g, ok := x.tryEvalBool(env, cl.E); ok {
+				x.assume(st, g)
+			}
+		}
+	}
+	x.seqCtr++
+	st.trace = append(st.trace, &CallEvent{Callee: name, Args: append([]Val{recv}, args...), Res: res, Seq: x.seqCtr})
+	k(st, packResults(res))
+}
+
+func keysOf(m map[string]string) map[string]bool {
+	o := map[string]bool{}
+	for k := range m {
+		o[k] = true
+	}
+	return o
 }
